@@ -130,6 +130,23 @@ def build_definition(r):
             else:
                 e = enc.StringDataEncoding(fixed_raw_length=t['bits'], encoding=t['encoding'])
             types[t['name']] = pt.StringParameterType(t['name'], e)
+        elif k == 'time':
+            e = enc.IntegerDataEncoding(t['w'], 'unsigned', default_calibrator=mk_cal(t.get('default')))
+            cls_ = pt.AbsoluteTimeParameterType if t.get('absolute', True) else pt.RelativeTimeParameterType
+            types[t['name']] = cls_(t['name'], e, unit=t.get('unit'), epoch=t.get('epoch'), offset_from=t.get('offset_from'))
+        elif k == 'str2':
+            lk = None
+            if t.get('lookups'):
+                lk = [cmp.DiscreteLookup([cmp.Comparison(lit, ref, operator=op, use_calibrated_value=uc)
+                                          for ref, op, lit, uc in crit], float(v)) for crit, v in t['lookups']]
+            e = enc.StringDataEncoding(encoding=t['encoding'], byte_order=t.get('byte_order'),
+                                       fixed_raw_length=t.get('bits'), discrete_lookup_length=lk,
+                                       termination_character=t.get('term'), leading_length_size=t.get('lead'))
+            types[t['name']] = pt.StringParameterType(t['name'], e, unit=t.get('unit'))
+        elif k == 'bin2':
+            lk = [cmp.DiscreteLookup([cmp.Comparison(lit, ref, operator=op, use_calibrated_value=uc)
+                                      for ref, op, lit, uc in crit], float(v)) for crit, v in t['lookups']]
+            types[t['name']] = pt.BinaryParameterType(t['name'], enc.BinaryDataEncoding(size_discrete_lookup_list=lk))
         elif k == 'bin':
             if t.get('ref'):
                 adj = t.get('adj')
@@ -179,7 +196,8 @@ def _finish(built, r, dfn):
     for c in built.values():
         if c.base_container_name:
             built[c.base_container_name].inheritors.append(c.name)
-    return dfn.XtcePacketDefinition(container_set=list(built.values()), root_container_name=r['root'])
+    return dfn.XtcePacketDefinition(container_set=list(built.values()), root_container_name=r['root'],
+                                    date=r.get('date'), space_system_name=r.get('space_system_name'))
 
 
 def gen_packet(rng, r, body_len=None, apid=None, seqflags=3, seqcount=None):
